@@ -25,7 +25,9 @@ struct Client {
 }
 
 fn client(i: usize) -> Client {
-    Client { name: format!("p{:02}", i), score: i as i32 * 3 - 5 }
+    // every fourth client shares its name with others (as "(connecting)" players do on real
+    // servers); they differ in their score
+    Client { name: if i % 4 == 3 { "(connecting)".to_string() } else { format!("p{:02}", i) }, score: i as i32 * 3 - 5 }
 }
 
 /// Fields of an info datagram as strings, so that any of them can be replaced.
@@ -344,7 +346,22 @@ fn parts_extended(n: usize, per_packet: usize) -> Vec<Vec<u8>> {
     out
 }
 
+/// The complete info obtained by merging the parts in their natural order, as the reference for
+/// "any order gives the same result" (None if that order does not complete - reported elsewhere).
+fn natural_order_result(parts: &[Vec<u8>]) -> Option<String> {
+    let mut acc: Option<PartialServerInfo> = None;
+    for p in parts {
+        let p = parse_partial(p)?;
+        match acc.as_mut() {
+            None => acc = Some(p),
+            Some(a) => a.merge(p).ok()?,
+        }
+    }
+    acc.as_mut()?.get_info().map(|i| format!("{:?}", i))
+}
+
 fn run_merge(parts: &[Vec<u8>], order: &[usize], n: usize) -> Result<String, String> {
+    let reference = natural_order_result(parts);
     let mut acc: Option<PartialServerInfo> = None;
     let mut seen = std::collections::BTreeSet::new();
     let mut completions = 0;
@@ -366,11 +383,18 @@ fn run_merge(parts: &[Vec<u8>], order: &[usize], n: usize) -> Result<String, Str
                 if !complete_expected {
                     return Err(format!("info reported complete after parts {:?} of {} (step {})", seen, parts.len(), step));
                 }
-                let names: Vec<String> = info.clients.iter().map(|c| c.name.to_string()).collect();
-                let mut want: Vec<String> = (0..n).map(|i| client(i).name).collect();
+                let mut names: Vec<(String, i32)> = info.clients.iter().map(|c| (c.name.to_string(), c.score)).collect();
+                names.sort();
+                let mut want: Vec<(String, i32)> = (0..n).map(|i| (client(i).name, client(i).score)).collect();
                 want.sort();
                 if names != want {
                     return Err(format!("complete info lists {} clients {:?}..., expected {} distinct clients", names.len(), &names[..names.len().min(5)], n));
+                }
+                // the same result whatever the order (all fields, the order of the list included)
+                if let Some(r) = &reference {
+                    if &format!("{:?}", info) != r {
+                        return Err(format!("result depends on the order of the parts: order {:?} gives a different complete info than the natural order", order));
+                    }
                 }
                 if info.num_clients as usize != n {
                     return Err(format!("complete info announces {} clients, expected {}", info.num_clients, n));
